@@ -125,7 +125,7 @@ func discoverPackages(repo, prop string) []string {
 		}
 		if !info.IsDir() && strings.HasSuffix(path, "_verif.go") {
 			data, _ := os.ReadFile(path)
-			if strings.Contains(string(data), prop) {
+			if strings.Contains(string(data), prop) || (prop == "//@" && strings.Contains(string(data), "// @")) {
 				rel, _ := filepath.Rel(repo, filepath.Dir(path))
 				p := "./" + rel
 				if !has(pats, p) {
